@@ -31,7 +31,7 @@ def renew_sites(F, b):
     return out
 
 
-@rule('R18.1', ['C18'], floor=8, clause='a lease is only taken from an ACK carrying the client\'s hardware address and current transaction id, a server identifier, a contiguous mask and a unicast address')
+@rule('R18.1', ['C18', 'C10'], floor=8, clause='a lease is only taken from an ACK carrying the client\'s hardware address and current transaction id, a server identifier, a contiguous mask and a unicast address')
 def r18_1(ctx):
     """T1: every site in dhcpv4::Socket::process that enters or refreshes the bound state is dominated by
     the equality edges chaddr == ours, xid == self.transaction_id, server_identifier Some, message_type
